@@ -410,3 +410,23 @@ def state_inside_limits(rng, mj, frac=0.8, qscale=1.0, qdscale=1.0):
       mid, half = (lo + hi) / 2, (hi - lo) / 2 * frac
       q[mj.jnt_qposadr[j]] = rng.uniform(mid - half, mid + half)
   return q, qd
+
+
+def special_state(mj, kind, rng=None):
+  """Special points of the state space: 'zero' (default pose, identity root
+  quaternions, zero velocity), 'zero_velocity' (random pose, qd = 0),
+  'tiny' (coordinates and velocities of order 1e-6)."""
+  q = np.zeros(mj.nq)
+  qd = np.zeros(mj.nv)
+  if kind == 'zero_velocity':
+    q, _ = rand_state(rng, mj)
+    return q, qd
+  for j in range(mj.njnt):
+    a = mj.jnt_qposadr[j]
+    if mj.jnt_type[j] == 0:
+      q[a + 3] = 1.0
+    elif kind == 'tiny':
+      q[a] = float(rng.uniform(-1, 1) * 1e-6)
+  if kind == 'tiny':
+    qd = rng.uniform(-1, 1, mj.nv) * 1e-6
+  return q, qd
